@@ -40,6 +40,7 @@ func (tt *typeTab) id(t types.Type) int {
 	if t == nil {
 		return -1
 	}
+	t = types.Unalias(t)
 	key := types.TypeString(t, qual)
 	if id, ok := tt.ids[key]; ok {
 		return id
